@@ -16,7 +16,7 @@ CHECKS = {
              text="Every text emitted for the recipe populations, for every public constructor at boundary immediates, for label-stress shapes, return-analysis chains, programs around the frame-local and slot limits and Router programs (action shapes, clear-state variants, method pairs), under versions 2-10 and both modes, is parsed by an independent assembler front-end with a frozen langspec table; its CFG is walked exhaustively for termination / routine separation.",
              note="langspec table written from the AVM spec and calibrated on the 185 golden TEAL files; itxn-specific field versions not modelled", ref="2/C04"),
  "C05": dict(tech="per emitted program: explicit-state exploration of the abstract machine (pc, type stack, frame) to a fixpoint; plus dynamic type/underflow fault check on the input alphabet",
-             text="For every emitted program of the recipe populations (incl. ABI-subroutine programs, return-analysis chains, Router programs, and the constructor sweep wrapped by declared type: exactly one value at the main routine's return) and configurations, all reachable abstract states of every routine are explored (one height per pc, no pop below the routine's floor, no definitely wrong operand type, consistent retsub heights, frame accesses inside the frame); programs without anytype expressions are also executed and must not fault with a type or underflow error.",
+             text="For every emitted program of the recipe populations (incl. ABI-subroutine programs, every routine of 1-6 ABI arguments over {uint64, bytes} with every position used by its own and by the other type's opcode, return-analysis chains, Router programs, and the constructor sweep wrapped by declared type: exactly one value at the main routine's return) and configurations, all reachable abstract states of every routine are explored (one height per pc, no pop below the routine's floor, no definitely wrong operand type, consistent retsub heights, frame accesses inside the frame); programs without anytype expressions are also executed and must not fault with a type or underflow error.",
              note="opcode stack signatures from vf/avm/spec.py; callsub summaries inferred; slot contents are untyped (load yields unknown)", ref="2/C05"),
  "C03": dict(tech="exhaustive enumeration of recipes (control flow, call graphs, all store/load sequences over the optimiser alphabet) x all option/version settings; differential execution on the reference AVM against a pivot configuration",
              text="Every recipe (and every hand-written ABI-subroutine program of the C02 families) is compiled under every option setting and version at which it compiles; all results run on every input and must agree with the pivot in verdict, value, effects and user-numbered scratch slots; pairs differing only in the slot optimisation must also agree on the stack portion a routine owns whenever control leaves it.",
